@@ -17,9 +17,14 @@ WAITS = [0.001, 0.05, 0.1, 1.0, 5.0]
 class ScriptedPeer(object):
     def __init__(self):
         self.up = True
+        self.sync_refuse = False
 
     def accepting(self, host, port):
         return self.up
+
+    def refuses_synchronously(self, host, port):
+        # an endpoint may fail before it returns (TCP4ClientEndpoint.connect turns an exception into defer.fail())
+        return self.sync_refuse
 
     def on_frame(self, conn, frame):
         pass
@@ -59,7 +64,7 @@ class BCEngine(Engine):
     def config_strategy(cls):
         return st.fixed_dictionaries({
             "policy": st.fixed_dictionaries({"kind": st.sampled_from(["lin", "exp", "const"]), "base": st.sampled_from([0.0, 0.1, 0.5, 1.0, 1.0, 9.0, 40.0])}),
-            "first_id": st.sampled_from([1, 7, 2 ** 31 - 3]),
+            "first_id": st.sampled_from([1, 7, 2 ** 31 - 3, -3, -(2 ** 31)]),  # the id is an int32 on the wire: the whole range, both wraps
         })
 
     def __init__(self, config, ctx, props=None):
@@ -110,6 +115,8 @@ class BCEngine(Engine):
             if any(r.tomb for r in self.reqs):
                 ops += ["reusetomb", "reusetomb"]
             ops += ["disc", "upd", "updown"]
+            if self.config["policy"]["base"] >= 0.1:  # with no delay between attempts a synchronous refusal never lets the clock move
+                ops += ["syncref"]
             if len(self.trace) > 4:
                 ops += ["close"]
         srv = self._server_conn()
@@ -166,6 +173,16 @@ class BCEngine(Engine):
             self.connecting = True
             self.failures = 0
             self.exp_attempts.append((self.addr[0], self.addr[1], None))
+            self._sync_refused(self.world.now)
+
+    def _sync_refused(self, at):
+        """the attempt just expected fails before connect() returns: it counts as a failure made at `at`"""
+        if self.peer.sync_refuse:
+            self.failures += 1
+            self.backoff_due = at + self.policy(self.failures)
+            self.labels.add("connect-refused-synchronously")
+            if self.failures >= 2:
+                self.labels.add("consecutive-connect-failures")
 
     def _write_expected(self, r):
         self.exp_writes.append((self.cur.cid, r.frame))
@@ -185,6 +202,9 @@ class BCEngine(Engine):
         self.exp_attempts = []
         if op == "updown":
             self.peer.up = not self.peer.up
+            return
+        if op == "syncref":
+            self.peer.sync_refuse = not self.peer.sync_refuse
             return
         if op == "reusetomb":
             # id of a request that was written, then cancelled, and whose reply has not arrived: the client may
@@ -223,7 +243,7 @@ class BCEngine(Engine):
                 self.labels.add("id-reused-after-completion")
             else:
                 cid = self.next_id
-                self.next_id = (self.next_id + 1) % (2 ** 31)
+                self.next_id = self.next_id + 1 if self.next_id < 2 ** 31 - 1 else -(2 ** 31)
                 expect = bool(step[1])
             r = Req(len(self.reqs), cid, expect, None)
             r.frame = self._mk_frame(cid, r.idx)
@@ -391,12 +411,16 @@ class BCEngine(Engine):
 
     def _timer_passed(self, before):
         w = self.world
-        if self.backoff_due is not None and not self.closed and w.now > self.backoff_due - 1e-12:
+        while self.backoff_due is not None and not self.closed and w.now > self.backoff_due - 1e-12:
             # the backoff timer is due; if the clock is strictly past it, the attempt must have been made
-            logged = len(w.attempt_log) > self.seen_attempts
+            logged = len(w.attempt_log) > self.seen_attempts + len(self.exp_attempts)
             if logged or w.now > self.backoff_due + 1e-9:
-                self.exp_attempts.append((self.addr[0], self.addr[1], self.backoff_due))
+                due = self.backoff_due
+                self.exp_attempts.append((self.addr[0], self.addr[1], due))
                 self.backoff_due = None
+                self._sync_refused(due)  # refused before connect() returned: the next timer runs from that attempt
+            else:
+                break
 
     def _process(self, ev, action=None):
         w = self.world
